@@ -176,6 +176,9 @@ func c20Case(w *core.Worker, i int) {
 		case c == 15:
 			// REPLACE: every row holding a given key is overwritten, a record with a new key is added — both are changes of A's own
 			hist = append(hist, stmt{"replace", fmt.Sprintf("REPLACE INTO t (id, ver, note) USING (id) VALUES (%d, 'A', 'rp%d'), (%d, 'A', 'rn%d');", r.Range(1, 3), k, 200+k, k)})
+		case c <= 2 && r.P(30):
+			// a command that only describes the table: it loads the table if the transaction has not yet, and changes nothing
+			hist = append(hist, stmt{"describe", []string{"SHOW FIELDS FROM t;", "SHOW FIELDS FROM `t.csv`;", "SHOW TABLES;", "SHOW FIELDS FROM t; SHOW TABLES;"}[r.Intn(4)]})
 		case c <= 2:
 			hist = append(hist, stmt{"select", "SELECT id, ver, note FROM t;"})
 		case c == 3:
@@ -322,6 +325,10 @@ func c20Run(w *core.Worker, ci int, hsql []string, kind func(int) string, gaps [
 			return
 		}
 		switch kind(k) {
+		case "describe":
+			if strings.Contains(hsql[k], "SHOW FIELDS") && !loaded {
+				work, loaded = cp(disk), true
+			}
 		case "select", "forupdate":
 			if kind(k) == "forupdate" && !exclusive {
 				// first FOR UPDATE access: (re)load the current file and hold it
